@@ -19,6 +19,12 @@ CONSTANTS
   MaxTicks = 4
   Faults = {}
   MaxRenewFails = 0
+  MaxConsecFails = 1
+  HbGiveUp = "never"
+  GiveUpAfter = 0
+  RenewTTLTicks = 3
+  Realloc = FALSE
+  StopChan = "once"
   WithLapse = FALSE
   Emit = FALSE
 INIT Init
